@@ -1,4 +1,4 @@
-"""subprocess helper: read {"dict": {...}, "keys": [...]} from stdin, build the model with from_dict under the
+"""subprocess helper: read {"dict": {...}, "keys": [...]} (or {"batch": [such requests]}) from stdin, build the model with from_dict under the
 PYTHONHASHSEED of the environment, calculate, print {key: [[wire, ...], ...]} as JSON."""
 import sys, os, json, warnings
 warnings.simplefilter('ignore')
@@ -8,18 +8,32 @@ common.import_repo()
 import numpy as np
 import bookrun
 bookrun.setup()
+def one(req):
+    m = bookrun.ExcelModel().from_dict(req['dict'])
+    if req.get('circular'):
+        m.finish(complete=False, circular=True)
+    sol = m.calculate()
+    out = {}
+    for k in req['keys']:
+        v = sol.get(k)
+        try:
+            a = np.asarray(getattr(v, 'value', v), object)
+            a = a.reshape(1, 1) if a.ndim == 0 else a
+            out[k] = [[bookrun.wire_impl(x) for x in row] for row in a.tolist()]
+        except Exception as ex:
+            out[k] = 'missing:' + type(ex).__name__
+    return out
+
+
 req = json.load(sys.stdin)
-m = bookrun.ExcelModel().from_dict(req['dict'])
-if req.get('circular'):
-    m.finish(complete=False, circular=True)
-sol = m.calculate()
-out = {}
-for k in req['keys']:
-    v = sol.get(k)
-    try:
-        a = np.asarray(getattr(v, 'value', v), object)
-        a = a.reshape(1, 1) if a.ndim == 0 else a
-        out[k] = [[bookrun.wire_impl(x) for x in row] for row in a.tolist()]
-    except Exception as ex:
-        out[k] = 'missing:' + type(ex).__name__
-json.dump(out, sys.stdout)
+if 'batch' in req:
+    # {"batch": [request, ...]} -> [answer or {"raised": name}, ...]
+    res = []
+    for r in req['batch']:
+        try:
+            res.append(one(r))
+        except Exception as ex:
+            res.append({'raised': type(ex).__name__})
+    json.dump(res, sys.stdout)
+else:
+    json.dump(one(req), sys.stdout)
